@@ -302,6 +302,11 @@ func init() {
 		return symIntrinsicsOrConcrete("strings.TrimRight", fr, []value{l, a[1]})
 	})
 	regSym("strings.ReplaceAll", func(fr *frame, a []value) value {
+		if replaceAllHookG != nil { // agentG: option-gated non-forking char map (intr_x_agentG.go)
+			if r, ok := replaceAllHookG(fr, a); ok {
+				return r
+			}
+		}
 		s := strArg(a[0])
 		old, ok1 := a[1].(string)
 		nw, ok2 := a[2].(string)
